@@ -39,7 +39,13 @@ pub enum Step {
     Two(usize),
     /// a binary message fragmented into two frames, one write
     Frag(usize),
+    /// the first fragment of a binary message; the rest follows in a later step (FragRest). Until then the
+    /// event loop waits in the blocking continuation read: a server-side stall
+    FragFirst(usize),
+    FragRest(usize),
     Ping(usize),
+    /// an unsolicited Pong
+    Pong(usize),
     Close(usize),
     /// the client vanishes without a Close frame
     Abrupt(usize),
@@ -93,7 +99,7 @@ pub fn sent_messages(scn: &Scn) -> Vec<Vec<Vec<u8>>> {
                 v[c].push(format!("c{}m{}a", c, i).into_bytes());
                 v[c].push(format!("c{}m{}b", c, i).into_bytes());
             }
-            Step::Frag(c) => v[c].push(vec![0xf0, c as u8, i as u8, 1, 2, 3, 4]),
+            Step::Frag(c) | Step::FragFirst(c) => v[c].push(vec![0xf0, c as u8, i as u8, 1, 2, 3, 4]),
             _ => {}
         }
     }
@@ -215,6 +221,15 @@ pub fn body(scn: &Scn, log: &Arc<Mutex<Vec<Ev>>>) {
                         b.extend(cframe(0, true, &[2, 3, 4]));
                         socks[c].as_mut().unwrap().write_all(&b).ok();
                     }
+                    Step::FragFirst(c) => {
+                        socks[c].as_mut().unwrap().write_all(&cframe(2, false, &[0xf0, c as u8, i as u8, 1])).ok();
+                    }
+                    Step::FragRest(c) => {
+                        socks[c].as_mut().unwrap().write_all(&cframe(0, true, &[2, 3, 4])).ok();
+                    }
+                    Step::Pong(c) => {
+                        socks[c].as_mut().unwrap().write_all(&cframe(10, true, b"u")).ok();
+                    }
                     Step::Ping(c) => {
                         socks[c].as_mut().unwrap().write_all(&cframe(9, true, format!("p{}", i).as_bytes())).ok();
                     }
@@ -320,7 +335,11 @@ pub fn check(scn: &Scn, r: &ExecResult, log: &[Ev], choices: &[usize], s: &mut S
         let want: Vec<&Vec<u8>> = sent[c].iter().collect();
         // with a heartbeat our (never ponging) clients are dropped 3.5 intervals after connecting: what they send
         // later than 2 intervals after connecting may legitimately go unheard, but never out of order
-        let firm = if scn.heartbeat && !scn.responsive {
+        // a client whose message stalls the event loop past the heartbeat timeout may itself be judged timed out
+        let stalls = scn.steps.contains(&Step::FragFirst(c));
+        let firm = if scn.heartbeat && stalls {
+            0
+        } else if scn.heartbeat && !scn.responsive {
             let ct = connect_t.unwrap();
             let mut n = 0;
             for (i, st) in scn.steps.iter().enumerate() {
@@ -363,7 +382,7 @@ pub fn check(scn: &Scn, r: &ExecResult, log: &[Ev], choices: &[usize], s: &mut S
         // responsive clients answer every ping: the heartbeat must never drop them
         let hb_drops = scn.heartbeat && !scn.responsive;
         let must_disconnect = has_close_frame || (hb_drops && (abrupt || hb_timeout_t.map_or(false, |t| t + 3 <= shutdown_t)));
-        let may_disconnect = has_close_frame || hb_drops || (scn.heartbeat && abrupt);
+        let may_disconnect = has_close_frame || hb_drops || (scn.heartbeat && (abrupt || stalls));
         if ndis > 1 {
             s.violation("disconnect handler called more than once for one client", || ctx(format!("client {} disconnects={}", c, ndis)));
             continue;
@@ -394,7 +413,7 @@ pub fn check(scn: &Scn, r: &ExecResult, log: &[Ev], choices: &[usize], s: &mut S
                 continue;
             }
         };
-        let never_leaves = close_t.is_none() && (!scn.heartbeat || scn.responsive);
+        let never_leaves = close_t.is_none() && (!scn.heartbeat || (scn.responsive && !stalls));
         let mut acks: Vec<Vec<u8>> = vec![];
         let mut seen: Vec<Vec<u8>> = vec![];
         let mut closes = 0;
@@ -719,6 +738,15 @@ pub fn families(quick: bool) -> Vec<Family> {
         steps.extend(std::iter::repeat(Step::Tick).take(12));
         f.push(Family { name: format!("heartbeat with {} clients that answer every ping, P=1", n), p: 1, heartbeat: true, responsive: true, clients: n, scripts: vec![steps], d: 1, all_pacings_at_d0: false });
     }
+    // a server-side stall longer than the heartbeat timeout (client 1's message stays incomplete for 9 intervals,
+    // the loop waits in the blocking continuation read) while client 0 keeps ponging: client 0 must not be dropped
+    // and what it sends afterwards is dispatched
+    {
+        let mut steps = vec![Step::Connect(0), Step::Connect(1), Step::Tick, Step::FragFirst(1)];
+        steps.extend(std::iter::repeat(Step::Tick).take(8));
+        steps.extend([Step::Pong(0), Step::FragRest(1), Step::Tick, Step::Text(0)]);
+        f.push(Family { name: "heartbeat, event loop stalled past the timeout while a client keeps ponging, P=1".into(), p: 1, heartbeat: true, responsive: true, clients: 2, scripts: vec![steps], d: 1, all_pacings_at_d0: false });
+    }
     // a broadcast larger than a socket send buffer, to clients that were idle at the last poll
     for p in [1usize, 2] {
         f.push(Family {
@@ -839,6 +867,9 @@ fn parse_steps(txt: &str) -> Vec<Step> {
                 "TextBc" => Step::TextBc(arg),
                 "Two" => Step::Two(arg),
                 "Frag" => Step::Frag(arg),
+                "FragFirst" => Step::FragFirst(arg),
+                "FragRest" => Step::FragRest(arg),
+                "Pong" => Step::Pong(arg),
                 "Ping" => Step::Ping(arg),
                 "Close" => Step::Close(arg),
                 "Abrupt" => Step::Abrupt(arg),
